@@ -17,6 +17,20 @@ if st:
     sys.exit("refusing: /repo/sleap_nn has uncommitted changes")
 head = subprocess.run(["git", "-C", "/repo", "rev-parse", "--short", "HEAD"], capture_output=True, text=True).stdout.strip()
 prog = Program("/repo")
-json.dump({"_doc": "function names of the reference tree; see sa/core/inline.py", "repo_head": head, "functions": sorted(prog.functions)},
+import ast, hashlib
+from sa.core.program import norm, walk_function
+
+
+def sig(fi):
+    hs = []
+    for st in walk_function(fi.node):
+        if isinstance(st, ast.stmt) and not isinstance(st, (ast.FunctionDef, ast.AsyncFunctionDef, ast.ClassDef)) and st is not fi.node:
+            hs.append(hashlib.sha1(norm(st).encode()).hexdigest()[:8])
+    return sorted(set(hs))
+
+
+json.dump({"_doc": "functions of the reference tree (name -> parameters and statement fingerprints); used by sa/core/inline.py to decide which helpers are new "
+                   "and by the program model to recognise a renamed function",
+           "repo_head": head, "functions": {q: {"params": fi.params, "sig": sig(fi)} for q, fi in sorted(prog.functions.items())}},
           open(os.path.join(HERE, "sa", "known_functions.json"), "w"), indent=0)
 print(len(prog.functions), "functions at", head)
